@@ -1,8 +1,93 @@
-/- line-protocol handlers for C09 (stub: not built yet) -/
+/- line-protocol handlers for C09 (Sp(2n,F2) indexing) -/
 import Driver.Loop
+import NumqiModel.SpF2
 
 namespace Numqi.Driver.C09
+open Numqi Numqi.SpF2
 
-def handle (_args : List String) : String := "bad-op"
+/-- bit string in array order (character `j` = array entry `j`) ↦ packed little-endian -/
+def natOfBits (l : List Bool) : Nat :=
+  (l.foldr (fun b acc => 2 * acc + b.toNat) 0)
+
+def bitsOfNat (m v : Nat) : List Bool := (List.range m).map fun j => v.testBit j
+
+def vecStr (m v : Nat) : String := bitsStr (bitsOfNat m v)
+
+/-- `"0110"` of exactly `m` characters -/
+def parseVec? (m : Nat) (s : String) : Option Nat := do
+  let l ← parseBits? s
+  if l.length ≠ m then none else some (natOfBits l)
+
+/-- `"0110;1001;…"`: exactly `m` rows of `m` characters -/
+def parseMat? (m : Nat) (s : String) : Option (List Nat) := do
+  let rows ← (s.splitOn ";").mapM (parseVec? m)
+  if rows.length ≠ m then none else some rows
+
+def matStr (m : Nat) (M : List Nat) : String := ";".intercalate (M.map (vecStr m))
+
+def pairsOfFlat : List Nat → Option (List (Nat × Nat))
+  | [] => some []
+  | a :: b :: rest => do let r ← pairsOfFlat rest; pure ((a, b) :: r)
+  | _ => none
+
+def flatOfPairs (t : List (Nat × Nat)) : List Nat := t.flatMap fun p => [p.1, p.2]
+
+def handle (args : List String) : String :=
+  match args with
+  | ["ip", n, v, w] => Id.run do
+      let some n := n.toNat? | return "bad-op"
+      let some v := parseVec? (2 * n) v | return "bad-op"
+      let some w := parseVec? (2 * n) w | return "bad-op"
+      return if ip n v w then "1" else "0"
+  | ["tv", n, x, hs] => Id.run do
+      let some n := n.toNat? | return "bad-op"
+      let some x := parseVec? (2 * n) x | return "bad-op"
+      let some hs := (if hs = "-" then some [] else (hs.splitOn ";").mapM (parseVec? (2 * n))) | return "bad-op"
+      return vecStr (2 * n) (tvs n x hs)
+  | ["find", n, v, w] => Id.run do
+      let some n := n.toNat? | return "bad-op"
+      let some v := parseVec? (2 * n) v | return "bad-op"
+      let some w := parseVec? (2 * n) w | return "bad-op"
+      match findTransvection n v w with
+      | none => return "error:assert"
+      | some (h0, h1) => return s!"{vecStr (2 * n) h0} {vecStr (2 * n) h1}"
+  | ["from", n, t] => Id.run do
+      let some n := n.toNat? | return "bad-op"
+      let some t := parseNatList? t | return "bad-op"
+      let some t := pairsOfFlat t | return "bad-op"
+      if n = 0 || t.length ≠ n || !inRange t then return "bad-op"
+      return matStr (2 * n) (fromIntTuple t)
+  | ["to", n, M] => Id.run do
+      let some n := n.toNat? | return "bad-op"
+      if n = 0 then return "bad-op"
+      let some M := parseMat? (2 * n) M | return "bad-op"
+      match toIntTuple n M with
+      | none => return "error:assert"
+      | some t => return natListStr (flatOfPairs t)
+  | ["inv", n, M] => Id.run do
+      let some n := n.toNat? | return "bad-op"
+      if n = 0 then return "bad-op"
+      let some M := parseMat? (2 * n) M | return "bad-op"
+      return matStr (2 * n) (inverse n M)
+  | ["issp", n, M] => Id.run do
+      let some n := n.toNat? | return "bad-op"
+      if n = 0 then return "bad-op"
+      let some M := parseMat? (2 * n) M | return "bad-op"
+      return if isSp n M then "1" else "0"
+  | ["mul", n, A, B] => Id.run do
+      let some n := n.toNat? | return "bad-op"
+      if n = 0 then return "bad-op"
+      let some A := parseMat? (2 * n) A | return "bad-op"
+      let some B := parseMat? (2 * n) B | return "bad-op"
+      return matStr (2 * n) (matMul (2 * n) A B)
+  | ["num", n, kind] => Id.run do
+      let some n := n.toNat? | return "bad-op"
+      if n = 0 then return "error:assert"
+      match kind with
+      | "base" => return natListStr (flatOfPairs (basePairs n))
+      | "order" => return toString (order n)
+      | "coset" => return natListStr (cosetNumbers n)
+      | _ => return "error:assert"
+  | _ => "bad-op"
 
 end Numqi.Driver.C09
